@@ -2,6 +2,7 @@
  *
  *   h_compint <mode> <shard> <nshards> [asan]
  * modes: short   all byte strings of length 0..3 (exhaustive), cursors 0,1,7
+ *        short4  all byte strings of length 4 (thorough tier)
  *        long    lengths 8..11, every value in the last three positions over fixed prefixes
  *        enc     encode/decode all v < 2^21, 2^k, 2^k +/- 1, random 64-bit
  *        beyond  cursor already past the limit (a caller that skipped a declared size without checking it): must fail without
@@ -180,6 +181,21 @@ int main(int argc, char **argv) {
                 for(int c = 0; c < 256; c++) {
                     w[2] = c;
                     for(int f = 0; f < 2; f++) one(w, 3, cursors[(a + b + c) % 3], f);
+                }
+            }
+        }
+    } else if(!strcmp(mode, "short4")) {
+        /* thorough tier: every byte string of length 4 as well (2^32 strings), one cursor and one decoder per string */
+        for(int a = shard; a < 256; a += nsh) {
+            w[0] = a;
+            for(int b = 0; b < 256; b++) {
+                w[1] = b;
+                for(int c = 0; c < 256; c++) {
+                    w[2] = c;
+                    for(int d = 0; d < 256; d++) {
+                        w[3] = d;
+                        one(w, 4, cursors[(a + b + c + d) % 3], (c + d) & 1);
+                    }
                 }
             }
         }
